@@ -131,6 +131,16 @@ def valid_documents(rng, tier, max_atoms=None):
                 continue
             text = open(p, encoding="utf-8", errors="replace").read()
             docs.append((fmt, nm, _shorten(fmt, text, max_atoms)))
+    # tiny documents: with 0 or 1 atom a damaged supercell record (`ncell`) can stay consistent with the atom count,
+    # so the faults reach the code AFTER the count check
+    from diffpy.structure import Structure, Atom, Lattice
+    for k, atoms in enumerate(([], [Atom("C", [0.1, 0.2, 0.3])], [Atom("C", [0.1, 0.2, 0.3]), Atom("O", [0.1, 0.7, 0.3])])):
+        tiny = Structure(atoms, lattice=Lattice(3.0, 4.0, 5.0, 90, 90, 90), title="tiny %d" % k)
+        for fmt, text in write_all(tiny).items():
+            if text is not None and fmt in ("pdffit", "discus"):
+                docs.append((fmt, "tiny%d.%s" % (k, fmt), text))
+                if k == 2:
+                    docs.append((fmt, "tiny2_121.%s" % fmt, text.replace("1,1,1,2", "1,2,1,2").replace("1, 1, 1, 2", "1, 2, 1, 2")))
     nstru = 3 if tier == "quick" else 9
     for k, s in enumerate(generated_structures(rng, nstru)):
         for fmt, text in write_all(s).items():
